@@ -268,6 +268,8 @@ def laws(ctx, model, data, where, prop='C03', full=True):
         step = 8 * np.spacing(np.maximum(np.abs(xi), max(abs(lo), abs(hi), span, _param_magnitude(model)))) + 1e-300
         if method == 'bisect':
             step = step + 1e-8          # bisect's documented absolute tolerance in x (C18)
+        elif type(getattr(model, '_instance', None) or model).__name__ == 'GaussianKDE':
+            step = step + 2e-15         # chandrupatla's absolute termination floor (eps_a = 2 * machine epsilon)
         Fl = _call(ctx, model.cumulative_distribution, xi - step, 'cdf', w2, prop)
         Fr = _call(ctx, model.cumulative_distribution, xi + step, 'cdf', w2, prop)
         if Fl is not None and Fr is not None:
@@ -305,7 +307,7 @@ def laws(ctx, model, data, where, prop='C03', full=True):
         a, b = xq[i], xq[i + 1]
         if not b > a:
             continue
-        if b - a < 1e-9 * max(abs(a), abs(b), span):
+        if b - a < 1e-9 * max(abs(a), abs(b), span) or b - a < 1e-7 * _param_magnitude(model):
             # the fitted law is a spike at floating-point resolution: quadrature nodes collapse
             ctx.note('pdf.integral interval narrower than 1e-9 of the data range (inconclusive)')
             continue
